@@ -65,6 +65,11 @@ Theorem C10_oracle_sound : forall c, c10_valid c -> c10_check c = true -> c10_or
 Proof. exact c10_oracle_sound. Qed.
 Print Assumptions C10_oracle_sound.
 
+(* the check evaluates validity (64-bit revisions) itself, so every case that passes it on a run is covered *)
+Theorem C10_oracle_sound_checked : forall c, c10_check c = true -> c10_oracle c = None.
+Proof. exact c10_oracle_sound_checked. Qed.
+Print Assumptions C10_oracle_sound_checked.
+
 (* non-vacuity: the alphabet hypothesis is needed ("a#" vs "a": '#' = 35 < '$'), and is satisfiable *)
 Example C10_alphabet_needed :
   bcmp (encode [97; 35] 0) (encode [97] 5) <> kr_cmp [97; 35] 0 [97] 5.
